@@ -266,6 +266,38 @@ def _gen_near_tie_first_frame(rng):
     return {'op': 'chords_e2e', 'input': g}
 
 
+def _gen_full_range_melody(rng, lo=0, hi=127, hold_from=0, shuffle=True):
+    """Every pitch lo..hi present (hi - lo + 1 notes; the maximal state space 1 + 2 * 128 = 257 for 0..127): the TOP pitch is
+    one long note, all other pitches are short consecutive notes under it, so the optimal path sustains the HIGHEST-numbered
+    state over many frames (back-pointers reach the largest state index)."""
+    g = 4 * GRID
+    low = list(range(lo, hi))
+    if shuffle:
+        rng.shuffle(low)
+    notes = [[p0, i * g, (i + 1) * g, rng.choice([0, 1]), 0, 0] for i, p0 in enumerate(low)]
+    total = len(low) * g
+    notes.append([hi, hold_from * g, total, 0, 0, 0])
+    return notes, total
+
+
+def _gen_top_state_viterbi(rng, npitch=128):
+    """melody_vit case with the full state space whose optimum runs through the highest-numbered states (sustains of the top
+    pitches): integer matrices, ties, some -inf; emissions favour the last few states."""
+    m = 2 * npitch + 1
+    T = rng.randint(3, 5)
+    trans = [[(None if rng.random() < 0.05 else rng.randint(-3, 0)) for _ in range(m)] for _ in range(m)]
+    for i in range(m - 4, m):
+        for j in range(m - 4, m):
+            trans[i][j] = rng.randint(-3, -1)
+        trans[0][i] = rng.randint(-2, 0)
+    for j in range(m - 4, m):
+        trans[m - 1][j] = 0             # the LAST state is the strictly best parent of the top block
+    frames = [[(rng.randint(-9, -4) if j < m - 4 else rng.randint(-1, 0)) for j in range(m)] for _ in range(T)]
+    for t in range(T - 1):
+        frames[t][m - 1] = 0
+    return {'op': 'melody_vit', 'input': {'pitches': list(range(128 - npitch, 128)), 'trans': trans, 'frames': frames}}
+
+
 OUT_OF_KEY_SWEEP = [0.01, 0.1, 0.3, 0.5]
 
 
@@ -385,6 +417,10 @@ def corpus():
         out.append({'op': 'melody_e2e', 'input': {'notes': gap, 'total': max(x[2] for x in gap), 'k': 4,
                                                    'params': {'instantaneous_non_max_pitch_prob': 0.25,
                                                               'instantaneous_missing_pitch_prob': 1e-12}}})
+    # all 128 pitches, pitch 127 held over everything else: the path sustains state 256 of 257 (seeded change C19-11)
+    import random as _random
+    fr_notes, fr_total = _gen_full_range_melody(_random.Random(19), 0, 127, shuffle=False)
+    out.append({'op': 'melody_e2e', 'input': {'notes': fr_notes, 'total': fr_total, 'k': 1, 'params': {}}})
     # MIDI pitch 0 as the only / the top voice (seeded change C19-4: `if note_pitch:` drops it), and pitch 127
     out.append({'op': 'melody_e2e', 'input': {'notes': [[0, 0, 64 * GRID, 0, 0, 0]], 'total': 64 * GRID, 'k': 3, 'params': {}}})
     out.append({'op': 'melody_e2e', 'input': {'notes': [[0, 0, 64 * GRID, 0, 0, 0], [1, 64 * GRID, 128 * GRID, 0, 0, 0],
@@ -495,6 +531,14 @@ def cases(rng, tier, n=None):
         if isinstance(spf, int) and total <= 0:
             continue        # zero frames: outside the quantifier ("1..64 chord frames"); the helper indexes row 0
         out.append({'op': 'pitch_vectors', 'input': {'notes': notes, 'total': total, 'spf': spf}})
+    # maximal melody state space (all 128 pitches -> 257 states) with the optimum in the highest-numbered states, and the
+    # 0..126 / 1..127 / smaller controls (seeded change C19-11: uint8 back-pointers wrap 256 -> 0)
+    for lo, hi in ([(0, 127), (0, 126), (1, 127), (0, 127)] if not thorough else
+                   [(0, 127)] * 6 + [(0, 126), (1, 127), (2, 127), (0, 125), (64, 127), (0, 63)]):
+        notes, total = _gen_full_range_melody(rng, lo, hi, hold_from=rng.choice([0, 0, 3, 40]))
+        out.append({'op': 'melody_e2e', 'input': {'notes': notes, 'total': total, 'k': 1, 'params': _gen_melody_params(rng)}})
+    for npitch in ([128, 128, 127] if not thorough else [128] * 8 + [127, 126, 100]):
+        out.append(_gen_top_state_viterbi(rng, npitch))
     for _ in range(300 if thorough else 30):         # two-step use: melody inference on its own output
         notes, total = _gen_melody_notes(rng, rng.randint(1, 8))
         out.append({'op': 'melody_twice', 'input': {'notes': notes, 'total': total}})
